@@ -5,6 +5,8 @@ import Mathlib.Algebra.Order.Ring.Int
 import Mathlib.Tactic.Linarith
 import Mathlib.Tactic.Ring
 import Mathlib.Tactic.Push
+import Mathlib.Tactic.NormNum
+import Mathlib.Tactic.IntervalCases
 
 /-!
 # Helper lemmas for the three sorted-array scans (property C10)
